@@ -9,6 +9,6 @@ MC_AllViews == {KindView(k, 1) : k \in Kinds}
 
 \* representative subsets for the two-transmission configurations (matching; matching only
 \* without case randomisation; wrong port; undecodable; extra question; empty question section)
-MC_FewViews  == {KindView(k, 1) : k \in {"genuine", "qcase", "srcPort", "garbage"}}
-MC_SomeViews == {KindView(k, 1) : k \in {"genuine", "qcase", "srcPort", "extraQ", "garbage", "noQ"}}
+MC_FewViews  == {KindView(k, 1) : k \in {"genuine", "qcase", "srcPort", "garbage", "garbageOff"}}
+MC_SomeViews == {KindView(k, 1) : k \in {"genuine", "qcase", "srcPort", "extraQ", "garbage", "garbageOff"}}
 =============================================================================
